@@ -1375,7 +1375,7 @@ class LangServer:
                 ast_old = file_obj.ast
                 if ast_old is not None:
                     for key in ast_old.global_dict:
-                        self.obj_tree.pop(key, None)
+                        self._remove_global_obj(key, filepath)
                     self._release_included_files(ast_old)
                 self._forget_file_pp_defs(file_obj)
                 # Forget the file itself, otherwise it keeps answering
@@ -1451,7 +1451,7 @@ class LangServer:
         ast_old = file_obj.ast
         if ast_old is not None:
             for key in ast_old.global_dict:
-                self.obj_tree.pop(key, None)
+                self._remove_global_obj(key, filepath)
             self._release_included_files(ast_old)
         # Add new file to workspace
         file_obj.ast = ast_new
@@ -1465,6 +1465,13 @@ class LangServer:
             self.link_version = (self.link_version + 1) % 1000
             ast_new.resolve_links(self.obj_tree, self.link_version)
         return True, None
+
+    def _remove_global_obj(self, key: str, filepath: str) -> None:
+        """Remove a top-level object from the object tree, unless the name is by
+        now defined by another file (or is a bundled intrinsic module)"""
+        entry = self.obj_tree.get(key)
+        if (entry is not None) and (entry[1] == filepath):
+            self.obj_tree.pop(key, None)
 
     @staticmethod
     def _release_included_files(ast_old: FortranAST) -> None:
